@@ -4,6 +4,7 @@ from ..defuse import du_of, walk, peel, callee_name, fmt
 from ..conds import lits_of, all_edge_lits, status_variant
 from ..callgraph import cg_of
 from ..effects import effects_of
+from ..roles import roles_of
 from ..common import arg_term, contains_call, field_path, assigns_of_return, whole_iteration
 from . import c02
 
@@ -19,6 +20,7 @@ TRUSTED = ["rustc nightly MIR", "C02 (apply only when Ready)", "C15/G1"]
 
 
 def run(facts, res):
+    R = roles_of(facts)
     cg = cg_of(facts)
     res.rule("T1", "reload_until applies the whole ancestry: all heads and all parents of applied blocks are enqueued; loop until empty")
     res.rule("T2", "requested heads are validated (known and Ready) before anything is applied")
@@ -39,7 +41,7 @@ def run(facts, res):
         partial = bool(set(names) & {"take", "skip", "filter", "step_by", "take_while", "skip_while", "rev"})
         if any(x[0] == "field" and x[2] == "parents" for x in walk(v)):
             st = c02.status_guard(b, bi, facts)
-            applied = any(l.kind == "call" and callee_name(l.term) == "is_ok" and l.truth is True and contains_call(l.term[2][0], "apply_delta")
+            applied = any(l.kind == "call" and callee_name(l.term) == "is_ok" and l.truth is True and contains_call(l.term[2][0], R.name("applier"))
                           for l in lits_of(b, bi, facts))
             ok = st == "Ready" and applied and not partial and whole_iteration(b, v)
             seen_parent = seen_parent or ok
@@ -65,7 +67,7 @@ def run(facts, res):
         for l in lits_of(b, bi, facts):
             if l.kind == "call" and callee_name(l.term) == "is_empty" and l.truth is False and ({x[1] for x in walk(l.term[2][0]) if x[0] == "var"} & worklist_vars):
                 cond_ok = True
-    applies = [(bi, t) for bi, t in b.calls() if t.callee is not None and t.callee.name == "apply_delta"]
+    applies = [(bi, t) for bi, t in b.calls() if t.callee is not None and t.callee.name == R.name("applier")]
     other_exits = []
     if applies:
         from .. import iters
